@@ -209,7 +209,19 @@ class UnitOfWork(object):
         """
         version_cls = version_class(target.__class__)
         version_id = identity(target) + (self.current_transaction.id, )
-        version_key = (version_cls, version_id)
+        base_class = sa.inspect(target.__class__).base_mapper.class_
+        version_key = (version_class(base_class), version_id)
+
+        if (
+            version_key in self.version_objs and
+            type(self.version_objs[version_key]) is not version_cls
+        ):
+            # The entity was deleted and added again as another class of its
+            # inheritance hierarchy within this transaction: the version row
+            # written for the deleted object makes way for the one of the
+            # new object (same primary key).
+            self.version_session.delete(self.version_objs.pop(version_key))
+            self.version_session.flush()
 
         if version_key not in self.version_objs:
             version_obj = version_cls()
